@@ -19,7 +19,7 @@ EXTENDS Integers, Sequences, FiniteSets, TLC, Json
 
 CONSTANTS MaxSteps, GenOn
 
-Names == {"MSGA", "MSGB"}
+Names == {"MSGA", "MSGB", "MSG_WITH_A_NAME_THAT_GOES_PAST_COLUMN_FORTY_EIGHT_CHARS"}
 Ids == {1010, 1011}
 FNames == {"a", "b", "c"}
 FTypes == {"int32", "uint32", "char[8]", "double[2]"}
